@@ -103,6 +103,8 @@ NestLock(k) ==
 VARIABLE p
 Init == p \in UNION {LET ops == TLCEval(Ops(k)) IN {[k |-> k, ops |-> <<ops[j]>>] : j \in DOMAIN ops} : k \in Kinds}
               \cup (IF H >= 2 THEN UNION {LET red == TLCEval(Reduced(k)) IN {[k |-> k, ops |-> <<red[i], red[j]>>] : i \in DOMAIN red, j \in DOMAIN red} : k \in Kinds} ELSE {})
+              \* thorough tier: all triples of the reduced pool
+              \cup (IF H >= 3 THEN UNION {LET red == TLCEval(Reduced(k)) IN {[k |-> k, ops |-> <<red[i], red[j], red[q]>>] : i \in DOMAIN red, j \in DOMAIN red, q \in DOMAIN red} : k \in Kinds} ELSE {})
               \cup UNION {{[k |-> k, ops |-> <<x[1]>>, lock |-> TRUE] : x \in LockProgs(k)} : k \in Kinds}
               \cup UNION {{[k |-> k, ops |-> x, lock |-> TRUE] : x \in NestLock(k)} : k \in Kinds}
               \cup {[k |-> "tup", ops |-> x] : x \in RankProgs} \cup {[k |-> "tup", ops |-> x, key |-> "struct"] : x \in StructProgs}
